@@ -60,6 +60,7 @@ KLIT = '"<T\\"T\'&"'
 LL = "[%s, \"T\"]" % LIT
 LD = "{\"k\": %s}" % LIT
 XU = "see http://e.xy/?q=" + TAINT + " (www.e.xy/" + TAINT + ") m@e.xy tt:" + TAINT
+XU2 = "http://a.bc/" + TAINT + "/long/path"  # taint within the first 16 characters of a recognised URL
 XN = TAINT + "\n" + TAINT + " " + TAINT + "\n\n" + TAINT
 
 MODES = ("static", "select", "blk-true", "blk-flag-off", "blk-flag-on")
@@ -82,7 +83,7 @@ class StrObj:
 
 def make_ctx():
     return {
-        "x": TAINT, "xn": XN, "xu": XU, "l": [TAINT, "T"], "d": {"k": TAINT}, "dk": {KTAINT: TAINT},
+        "x": TAINT, "xn": XN, "xu": XU, "xu2": XU2, "l": [TAINT, "T"], "d": {"k": TAINT}, "dk": {KTAINT: TAINT},
         "o": Obj(TAINT), "ol": [Obj(TAINT), Obj("T")], "os": StrObj(),
     }
 
@@ -95,9 +96,9 @@ CTX_SRC = (
     "class StrObj:\n"
     "    def __str__(self): return TAINT\n"
     "    __repr__ = __str__\n"
-    "ctx = {'x': TAINT, 'xn': %r, 'xu': %r, 'l': [TAINT, 'T'], 'd': {'k': TAINT}, 'dk': {%r: TAINT},\n"
+    "ctx = {'x': TAINT, 'xn': %r, 'xu': %r, 'xu2': %r, 'l': [TAINT, 'T'], 'd': {'k': TAINT}, 'dk': {%r: TAINT},\n"
     "       'o': Obj(TAINT), 'ol': [Obj(TAINT), Obj('T')], 'os': StrObj()}\n"
-) % (TAINT, XN, XU, KTAINT)
+) % (TAINT, XN, XU, XU2, KTAINT)
 
 # --------------------------------------------------------------------------- carriers
 # A carrier is (name, fmt): fmt contains "\0" where the carried expression goes.
@@ -106,7 +107,15 @@ E = "\0"
 MENU = ("x", LIT, "1", '"T"', "true")
 KW_EXTRA = {
     "by": ['"value"'], "method": ['"ceil"'], "attribute": ['"T"', "0"], "extra_schemes": ['["tt:"]', "l"],
-    "width": ["3"], "length": ["3"], "linecount": ["2"], "slices": ["2"], "fill_with": [], "trim_url_limit": ["7"],
+    "width": ["3"], "length": ["3"], "linecount": ["2"], "slices": ["2"], "fill_with": [],
+    "trim_url_limit": ["7", "8", "16", "20"],
+}
+# directed extra argument lists (beyond the generic menu) that reach a filter's data-dependent path
+POS_EXTRA = {
+    # a recognised URL longer than the limit whose first `limit` characters contain the taint -> trimmed link text
+    "urlize": ["8", "16", "20", "16, true", "20, true, x", "16, true, x, x", "16, false, x, x, [\"tt:\"]",
+               "trim_url_limit=16, nofollow=true, target=x, rel=x", "20, rel=x, extra_schemes=[\"tt:\"]",
+               "8, target=%s" % LIT, "trim_url_limit=20, rel=%s" % LIT],
 }
 PASS_NAMES = ("environment", "env", "eval_ctx", "context")
 SKIP_FILTERS = ("safe",)  # excluded by the property
@@ -176,6 +185,7 @@ def filter_shapes(name, f, level):
     if level != "min":
         for n in names:
             shapes += ["%s=%s" % (n, m) for m in MENU + tuple(KW_EXTRA.get(n, ()))]
+    shapes += POS_EXTRA.get(name, [])
     if var:
         vs = var_arg_shapes(name)
         shapes += vs[:8] if level == "min" else vs
@@ -200,7 +210,7 @@ def extra_values(name):
     if name == "format":
         return ['"%s-%s"', '"%(k)s-%s"', '"[%s]"']
     if name == "urlize":
-        return ["xu", '"http://e.xy/?" ~ x']
+        return ["xu", "xu2", '"http://e.xy/?" ~ x', '"http://a.bc/%s"' % LIT[1:-1]]
     if name == "xmlattr":
         return ["dk", "{%s: %s}" % (KLIT, LIT), "dict(a=x)"]
     return []
